@@ -52,12 +52,17 @@ func HistoryFamily() []Prog {
 			}})
 		}
 	}
-	// the same class spelled differently, classes that differ only by a flag, nested classes
-	for _, expr := range []string{`[a-c]`, `[abc]`, `(?i)[a-c]`, `[^a-c]`, `[a-c]+`, `(?i)[abc]+`, `.`, `(?s).`, `\d`, `[0-9]`, `\D`, `\w\W`, `[[:alpha:]]`, `[[:^alpha:]]`,
-		`\pL`, `\PL`, `\p{Lu}`, `\p{Greek}`, `a|b|c`, `(?i)a|b|c`, `[a-c][a-c]`, `(?U)a+`, `a+`, `(?m)^a$`, `^a$`} {
-		expr := expr
-		ps = append(ps, one(fmt.Sprintf("StringMatching(%q)", expr), "", func() *rapid.Generator[string] { return rapid.StringMatching(expr) }, nil))
-		ps = append(ps, one(fmt.Sprintf("SliceOfBytesMatching(%q)", expr), "", func() *rapid.Generator[[]byte] { return rapid.SliceOfBytesMatching(expr) }, nil))
+	// the same class spelled differently, classes that differ only by a flag (and print identically once
+	// simplified: \d and (?i)\d are both [0-9]), nested classes - every expression under every flag
+	for _, expr := range []string{`[a-c]`, `[abc]`, `[^a-c]`, `[a-c]+`, `.`, `\d`, `[0-9]`, `\D`, `\w\W`, `[[:alpha:]]`, `[[:^alpha:]]`, `[0-9a-fA-F]{3}`, `[0-9a-f]{3}`, `[A-Za-z]`, `[a-z]`,
+		`\pL`, `\PL`, `\p{Lu}`, `\p{Greek}`, `a|b|c`, `[a-c][a-c]`, `a+`, `^a$`, `#[0-9a-fA-F]{2}`, `0x[0-9a-f]+`} {
+		for _, fl := range []string{"", "(?i)", "(?s)", "(?U)", "(?m)"} {
+			expr := fl + expr
+			ps = append(ps, one(fmt.Sprintf("StringMatching(%q)", expr), "", func() *rapid.Generator[string] { return rapid.StringMatching(expr) }, nil))
+			if fl == "" || fl == "(?i)" {
+				ps = append(ps, one(fmt.Sprintf("SliceOfBytesMatching(%q)", expr), "", func() *rapid.Generator[[]byte] { return rapid.SliceOfBytesMatching(expr) }, nil))
+			}
+		}
 	}
 	ps = append(ps, StringProgs()...)
 	ps = append(ps, CombinatorProgs()...)
